@@ -3,6 +3,7 @@ package checks
 import (
 	gocontext "context"
 	"encoding/json"
+	"encoding/xml"
 	"errors"
 	"fmt"
 	"io"
@@ -51,6 +52,12 @@ func (s c15Strict) WriteHeader(c int) {
 	}
 	s.retSpy.WriteHeader(c)
 }
+
+// c15PanicMarshal: a value whose marshalers panic.
+type c15PanicMarshal struct{ M string }
+
+func (v c15PanicMarshal) MarshalJSON() ([]byte, error)                    { panic(v.M) }
+func (v c15PanicMarshal) MarshalXML(*xml.Encoder, xml.StartElement) error { panic(v.M) }
 
 type c15Missing struct{ _ int }
 type c15Struct struct{ M string }
@@ -114,6 +121,8 @@ func c15EnterDir() func() {
 	_ = os.WriteFile(filepath.Join(dir, "c15_short.txt"), []byte("one line only\n"), 0o644)
 	_ = os.Mkdir(filepath.Join(dir, "c15_dir"), 0o755)
 	_ = os.WriteFile(filepath.Join(dir, "c15_empty.txt"), nil, 0o644)
+	_ = os.WriteFile(filepath.Join(dir, "c15_nonl.txt"), []byte("first\nsecond\nthe last line, no newline after it"), 0o644)
+	_ = os.WriteFile(filepath.Join(dir, "c15_crlf.txt"), []byte("first\r\nsecond\r\n\r\n"), 0o644)
 	_ = os.WriteFile(filepath.Join(dir, "c15_huge.txt"), []byte(strings.Repeat("x", 1<<20)), 0o644)
 	_ = os.Chdir(dir)
 	return func() {
@@ -129,7 +138,7 @@ func genRecCase(rng *rand.Rand, env string) *recCase {
 	}
 	c.Where = []string{"route", "route", "action", "notfound", "group"}[rng.Intn(5)]
 	c.Phase = []string{"before", "before", "after-header", "after-body"}[rng.Intn(4)]
-	c.Kind = []string{"string", "error", "runtime", "struct", "int", "abort", "dep", "nilerr", "neterr-epipe", "neterr-reset", "slice", "map", "structslice", "sliceerr", "bad-status-writeheader", "bad-status-return", "before-function-panics", "long-cjk", "line-directive", "invoke-non-function", "invoke-nil", "apply-non-struct", "urlpath-unknown-name"}[rng.Intn(23)]
+	c.Kind = []string{"string", "error", "runtime", "struct", "int", "abort", "dep", "nilerr", "neterr-epipe", "neterr-reset", "slice", "map", "structslice", "sliceerr", "bad-status-writeheader", "bad-status-return", "before-function-panics", "long-cjk", "line-directive", "invoke-non-function", "invoke-nil", "apply-non-struct", "urlpath-unknown-name", "marshal-json-panics", "marshal-xml-panics"}[rng.Intn(25)]
 	c.Method = []string{"GET", "GET", "GET", "HEAD"}[rng.Intn(4)]
 	switch x := rng.Intn(200); {
 	case x == 0:
@@ -263,6 +272,9 @@ func recVerdict(c *recCase, o recObs) string {
 			prefix += "pb;"
 		}
 	}
+	if wantStatus == 0 && (c.Kind == "marshal-json-panics" || c.Kind == "marshal-xml-panics") {
+		wantStatus = 202 // the render had sent its status when the value's marshaler panicked
+	}
 	if wantStatus == 0 {
 		wantStatus = 500
 	}
@@ -393,7 +405,7 @@ func judgeRec(w *core.W, c *recCase) {
 			events = append(events, fmt.Sprintf("post%d", i))
 		})
 	}
-	f.Use(flamego.Recovery())
+	f.Use(flamego.Recovery(), flamego.Renderer())
 	// a session-style middleware behind Recovery: what it registers to run before the response goes out (save the
 	// session, set its cookie) runs once with whatever response does go out - also the one Recovery sends
 	hookRuns := 0
@@ -495,6 +507,11 @@ func judgeRec(w *core.W, c *recCase) {
 			panic([]string{c.Marker})
 		case "map":
 			panic(map[string]string{"detail": c.Marker})
+		case "marshal-json-panics":
+			// a value whose marshaler panics, rendered through the Render service: a panic like any other
+			_, _ = ctx.Invoke(func(r flamego.Render) { r.JSON(202, c15PanicMarshal{c.Marker}) })
+		case "marshal-xml-panics":
+			_, _ = ctx.Invoke(func(r flamego.Render) { r.XML(202, c15PanicMarshal{c.Marker}) })
 		case "invoke-non-function":
 			_, _ = ctx.Invoke("not a function") // misuse of the framework's own API: it panics inside the framework, half-way through whatever it was doing
 		case "invoke-nil":
@@ -703,7 +720,7 @@ func runC15(r *core.Run) {
 	ws.Done()
 	ws.Merge()
 	flamego.SetEnv(orig)
-	for _, k := range []string{"environment-switched-after-assembly", "process-environment-variable-set-after-start", "kind:string", "kind:error", "kind:runtime", "kind:struct", "kind:int", "kind:abort", "kind:dep", "kind:nilerr", "kind:neterr-epipe", "kind:neterr-reset", "kind:slice", "kind:map", "kind:structslice", "kind:sliceerr", "kind:bad-status-writeheader", "kind:bad-status-return", "kind:before-function-panics", "kind:long-cjk", "kind:line-directive", "kind:invoke-non-function", "kind:invoke-nil", "kind:apply-non-struct", "kind:urlpath-unknown-name", "method:HEAD", "deep-stack", "second-recovery-nearer-the-panic", "request-context-cancelled-while-unwinding", "buffering-writer-in-front-of-recovery", "phase:before", "phase:after-header", "phase:after-body", "where:route", "where:group", "where:action", "where:notfound", "depth:flat", "depth:nested-next", "follow-up-requests"} {
+	for _, k := range []string{"environment-switched-after-assembly", "process-environment-variable-set-after-start", "kind:string", "kind:error", "kind:runtime", "kind:struct", "kind:int", "kind:abort", "kind:dep", "kind:nilerr", "kind:neterr-epipe", "kind:neterr-reset", "kind:slice", "kind:map", "kind:structslice", "kind:sliceerr", "kind:bad-status-writeheader", "kind:bad-status-return", "kind:before-function-panics", "kind:long-cjk", "kind:line-directive", "kind:invoke-non-function", "kind:invoke-nil", "kind:apply-non-struct", "kind:urlpath-unknown-name", "kind:marshal-json-panics", "kind:marshal-xml-panics", "method:HEAD", "deep-stack", "second-recovery-nearer-the-panic", "request-context-cancelled-while-unwinding", "buffering-writer-in-front-of-recovery", "phase:before", "phase:after-header", "phase:after-body", "where:route", "where:group", "where:action", "where:notfound", "depth:flat", "depth:nested-next", "follow-up-requests"} {
 		r.GateCounter(k, 100)
 	}
 	r.Gate("distinct_nontrivial", r.NonTrivialCount(), 1000)
